@@ -388,6 +388,9 @@ def p3_answer_reaches_everyone(C, rep, rid):
             if not rem:
                 continue
             dr = [c for c in b.calls if (c.resolved or c.name) in A.drain_fns]
+            if not dr and rf in A.drain_fns:
+                # the drain loop is written out in the removing function itself: its pop() is the drain point
+                dr = [c for c in b.calls if c.name == "std::vec::Vec::pop" and ml.ONESHOT_SENDER in c.full]
             ok = len(dr) >= 1
             rep.ob(rid, ok, rf, "removed entry is drained", where=rem[0].loc, how="drain call present", detail="" if ok else "the table entry is removed but its listeners are never answered")
             for d in dr:
